@@ -27,7 +27,7 @@ class Layout(object):
         if desc is None:
             return None
         if self.kind == "class":
-            return render.render_class(desc, self.name, default_doc=style.get("default_doc", False))
+            return render.render_class(desc, self.name, default_doc=style.get("default_doc", False), plain=style.get("plain_attrs", False))
         if self.kind == "argparse_function":
             return render.render_argparse(desc, self.name)
         if "." in self.name:
@@ -97,7 +97,7 @@ def gen_style(ch, label, body_p=0.3):
         body = ch.choice(label + ".bodyv", [["total = 0", "print('working')"], ["loss: float = 0.0", "seen: list = []", "print(loss, seen)"],
                                             ["count: int", "count = 1", "print(count)"]])
     st = {"inline_types": ch.chance(label + ".inline", 0.7), "kwonly": ch.chance(label + ".kwonly", 0.2),
-          "default_doc": ch.chance(label + ".ddoc", 0.3), "body": body}
+          "default_doc": ch.chance(label + ".ddoc", 0.3), "body": body, "plain_attrs": ch.chance(label + ".plain", 0.2)}
     if ch.chance(label + ".docstyle", DOCSTYLE_P):
         # a function whose author writes google / numpydoc docstrings (sync itself always emits ReST)
         st["docstyle"] = ch.choice(label + ".docstylev", ["google", "numpydoc", "rest_compact"])
